@@ -220,7 +220,7 @@ Section Ops.
     | OInput ts => {| f_outer := sig2 [] ts; f_inner := None; f_num_out := Some (nlen ts); f_static := None |}
     | OOutput ts => {| f_outer := sig2 ts []; f_inner := None; f_num_out := Some 0%N; f_static := None |}
     | OCall sig inst _ =>
-        {| f_outer := sig2 (ft_in inst) (ft_out inst); f_inner := None; f_num_out := Some (nlen (ft_out (pt_body sig)));
+        {| f_outer := sig2 (ft_in inst) (ft_out inst); f_inner := None; f_num_out := Some (nlen (ft_out inst));   (* repaired code: the instantiation, fix 5176e0c *)
            f_static := Some (poly_enc sig) |}
     | OCallIndirect sig =>
         {| f_outer := sig2 (func_as_ty sig :: ft_in sig) (ft_out sig); f_inner := None; f_num_out := Some (nlen (ft_out sig));
